@@ -3,6 +3,10 @@
 #[verifier::external_body]
 pub fn vpanic() -> ! requires false { panic!() }
 
+// R3c: `format!(..)` outside a panic: an opaque message
+#[verifier::external_body]
+pub fn vfmt() -> String { String::new() }
+
 pub fn vmin(a: usize, b: usize) -> (r: usize) ensures r == (if a <= b { a } else { b }) { if a <= b { a } else { b } }
 pub fn vsub_sat(a: usize, b: usize) -> (r: usize) ensures r == (if a >= b { a - b } else { 0 }) { if a >= b { a - b } else { 0 } }
 // number of elements visited by `.step_by(s)` over `len` elements: the unique r with (r-1)*s < len <= r*s (0 for len = 0)
